@@ -33,7 +33,8 @@ def _npoly(item):
 
 
 STRUCTURE_KEYS = ("item", "window", "waters", "damage", "rename", "chains", "input_name",
-                  "lig_het", "lig_resname", "lig_drop_h", "bad_records")
+                  "lig_het", "lig_resname", "lig_drop_h", "bad_records", "renumber",
+                  "water_name", "columns")
 
 
 TITRATABLE = ("LYS", "ASP", "GLU", "HIS", "TYR", "CYS", "ARG")
@@ -104,11 +105,14 @@ def gen_cfg(rng, structure=None):
                              for _ in range(rng.choice([1, 1, 2]))]
         if rng.random() < 0.25:
             cfg["rename"] = [[rng.randint(0, nres - 1),
-                              rng.choice(["HID", "HIE", "HIP", "ASH", "GLH", "LYN", "CYM", "HSD"])]]
+                              rng.choice(["HID", "HIE", "HIP", "ASH", "GLH", "LYN", "CYM", "HSD",
+                                      "HSE", "HSP", "TYM"])]]
         r = rng.random()
         if r < 0.4 and nres >= 6:
             k = rng.choice([2, 2, 3]) if nres >= 9 else 2
             cfg["chains"] = rng.sample(["A", "B", "C", "D", "X", "Q", "a", "b", "1", "2", " "], k)
+            if rng.random() < 0.15:
+                cfg["chains"][-1] = cfg["chains"][0]  # two chains with the same id, TER between
         elif r < 0.5:
             cfg["chains"] = [" "]  # no chain ids at all: pdb2pqr has to invent them
         if rng.random() < 0.15 and nres >= 6:
@@ -127,6 +131,12 @@ def gen_cfg(rng, structure=None):
             cfg["damage"] = (cfg.get("damage") or []) + [[rng.randint(0, nres - 1), "icode"]]
         if rng.random() < 0.10:
             cfg["bad_records"] = sorted(rng.sample(range(11), rng.randint(1, 4)))
+        if rng.random() < 0.12:
+            cfg["renumber"] = rng.choice([-40, -300, 9000, 5000, 1])
+        if cfg.get("waters") and rng.random() < 0.2:
+            cfg["water_name"] = "WAT"
+        if rng.random() < 0.12:
+            cfg["columns"] = rng.choice(["blank", "zero_occ", "segid", "noelement"])
     argv = []
     r = rng.random()
     if r < 0.12:
@@ -364,6 +374,10 @@ def feature_families(seed, quick):
              {"item": "cterm_hid.pdb", "lig_het": "ethanol.mol2"},
              {"item": "5vav_cyclic_peptide.pdb"},
              {"item": "cterm_hid.pdb", "bad_records": True},
+             {"item": "1AJJ.pdb", "window": [0, 12], "waters": 8, "water_name": "WAT",
+              "renumber": -40, "columns": "blank"},
+             {"item": "1BX8.pdb", "window": [10, 12], "renumber": 9000, "columns": "segid",
+              "chains": ["A", "B", "A"]},
              {"item": "1AJJ.pdb", "window": [2, 12], "bad_records": [0, 3, 6, 9]},
              {"item": "1BX8.pdb", "window": [3, 20], "chains": ["B", "A"],
               "damage": [[4, "add_oxt"], [9, "altloc"], [12, "icode"]]}]
